@@ -43,14 +43,21 @@ def build(rnd):
         stations.append(mock_station_from_geoid(station_id=f"s{i}", geoid=g, chargers=immutables.Map(ch), env=env))
         bases.append(mock_base_from_geoid(base_id=f"b{i}", geoid=g, station_id=f"s{i}" if rnd.random() < 0.7 else None,
                                           stall_count=rnd.choice([1, 2])))
+    from nrel.hive.model.membership import Membership
+    fleets = rnd.random() < 0.5         # half of the scenarios: some vehicles / requests / stations belong to fleets
+    def mem():
+        return rnd.choice([Membership(), Membership.single_membership("a"), Membership.single_membership("b")]) if fleets else Membership()
+    if fleets:
+        stations = [s_.set_membership(tuple(mem().memberships)) if hasattr(s_, "set_membership") else s_ for s_ in stations]
     vehicles = [mock_vehicle_from_geoid(vehicle_id=f"v{i}", geoid=rnd.choice(CELLS), soc=rnd.choice([0.0005, 0.3, 0.6, 1.0]),
-                                        **({"mechatronics": ice_} if mixed and i == 2 else {}))
+                                        membership=mem(), **({"mechatronics": ice_} if mixed and i == 2 else {}))
                 for i in range(3)]
     sim = mock_sim(vehicles=tuple(vehicles), stations=tuple(stations), bases=tuple(bases), sim_time=SimTime(600),
                    sim_timestep_duration_seconds=rnd.choice([1, 7, 60]))
     for i in range(2):
         o, d = rnd.sample(CELLS, 2)
-        sim = ops.add_entity(sim, mock_request_from_geoids(request_id=f"r{i}", origin=o, destination=d, departure_time=SimTime(500)))
+        sim = ops.add_entity(sim, mock_request_from_geoids(request_id=f"r{i}", origin=o, destination=d, departure_time=SimTime(500),
+                                                           fleet_id=(rnd.choice([None, "a", "b"]) if fleets else None)))
     return sim, env
 
 
@@ -356,11 +363,182 @@ def search_C13(seed):
     return None
 
 
+def search_C15(seed):
+    """a freshly built simulation with a *stateful* instruction generator (it counts the steps it has seen and acts on a
+    random one): crank(a) then crank(b), crank(a + b) and the batch runner over the same interval give the same clock and
+    the same states"""
+    from dataclasses import dataclass, replace as dc_replace
+    from nrel.hive.app import hive_cosim
+    from nrel.hive.dispatcher.instruction_generator.instruction_generator import InstructionGenerator
+    from nrel.hive.runner import LocalSimulationRunner, RunnerPayload
+    from nrel.hive.state.simulation_state.update.cancel_requests import CancelRequests
+    from nrel.hive.state.simulation_state.update.step_simulation import StepSimulation
+    from nrel.hive.state.simulation_state.update.update import Update
+    rnd = random.Random(seed)
+    step, a, b = rnd.choice([30, 60]), rnd.randint(1, 4), rnd.randint(1, 4)
+    act_on = rnd.randint(0, a + b - 1)
+    target = rnd.choice(["base", "station"])
+
+    @dataclass(frozen=True)
+    class Counting(InstructionGenerator):
+        seen: int = 0
+
+        def generate_instructions(self, sim, env):
+            ins = ()
+            if self.seen == act_on:
+                ins = (DispatchBaseInstruction("v0", "b0"),) if target == "base" else (DispatchStationInstruction("v0", "s0", mock_dcfc_charger_id()),)
+            return dc_replace(self, seen=self.seen + 1), ins
+
+    def fresh():
+        cfg = mock_config(start_time=0, end_time=(a + b) * step, timestep_duration_seconds=step)
+        env = mock_env(cfg).set_reporter(Rep())
+        sim = mock_sim(sim_time=SimTime(0), sim_timestep_duration_seconds=step, vehicles=(mock_vehicle_from_geoid(vehicle_id="v0", geoid=CELLS[0]),),
+                       stations=(mock_station_from_geoid(station_id="s0", geoid=CELLS[1]),), bases=(mock_base_from_geoid(base_id="b0", geoid=CELLS[1], stall_count=2),))
+        return RunnerPayload(sim, env, Update((CancelRequests(),), StepSimulation.from_tuple((Counting(),))))
+
+    def fp(rp):
+        vs = tuple((v.id, name(v), v.geoid, round(v.distance_traveled_km, 9), tuple(sorted((str(k), round(e, 9)) for k, e in v.energy.items())))
+                   for v in rp.s.get_vehicles())
+        return (int(rp.s.sim_time), vs, tuple((s_.id, tuple(sorted((c, cs.available_chargers) for c, cs in s_.state.items()))) for s_ in rp.s.get_stations()),
+                tuple((b_.id, b_.available_stalls) for b_ in rp.s.get_bases()))
+    split = hive_cosim.crank(hive_cosim.crank(fresh(), a, flush_events=False).runner_payload, b, flush_events=False).runner_payload
+    whole = hive_cosim.crank(fresh(), a + b, flush_events=False).runner_payload
+    batch = LocalSimulationRunner.run(fresh())
+    if int(whole.s.sim_time) != (a + b) * step:
+        return f"crank({a + b}) ends at {int(whole.s.sim_time)}, expected {(a + b) * step}"
+    if fp(split) != fp(whole):
+        return f"crank({a}); crank({b}) differs from crank({a + b}) (stateful generator acting on step {act_on}): {fp(split)} vs {fp(whole)}"
+    if fp(batch) != fp(whole):
+        return f"the batch runner over {a + b} steps differs from crank({a + b}): {fp(batch)} vs {fp(whole)}"
+    return None
+
+
+def search_C20(seed):
+    """time_in_range on random times of day including every boundary: x is on shift iff it lies in the cyclic half-open
+    interval [start, end)"""
+    from datetime import time as dtime
+    from nrel.hive.util.time_helpers import time_in_range
+    rnd = random.Random(seed)
+    def t(sec):
+        sec %= 86400
+        return dtime(sec // 3600, sec % 3600 // 60, sec % 60)
+    a, b = rnd.choice([0, 3600, 21600, 61200, 79200, 86399]), rnd.choice([0, 3600, 21600, 61200, 79200, 86399])
+    for x in (a, b, a - 1, b - 1, a + 1, b + 1, rnd.randrange(86400)):
+        x %= 86400
+        want = (a <= x < b) if a <= b else (x >= a or x < b)
+        if bool(time_in_range(t(a), t(b), t(x))) != want:
+            return f"time_in_range({t(a)}, {t(b)}, {t(x)}) = {time_in_range(t(a), t(b), t(x))}, the cyclic interval [start, end) says {want}"
+    return None
+
+
+def search_C09(seed):
+    """DictOps stack dictionaries against a python list model: the most recently pushed element is popped first"""
+    from nrel.hive.util.dict_ops import DictOps
+    rnd = random.Random(seed)
+    xs, model = immutables.Map(), {}
+    for k in range(12):
+        key = rnd.choice(["v0", "v1"])
+        if rnd.random() < 0.6:
+            xs = DictOps.add_to_stack_dict(xs, key, k)
+            model.setdefault(key, []).append(k)
+        else:
+            got, xs = DictOps.pop_from_stack_dict(xs, key)
+            want = model.get(key, []).pop() if model.get(key) else None
+            if got != want:
+                return f"pop_from_stack_dict returned {got}, the most recently pushed element of {key} is {want}"
+        if {k_: list(reversed(v)) for k_, v in xs.items() if v} != {k_: v for k_, v in model.items() if v}:
+            return f"stack dictionary {dict(xs)} disagrees with the pushes and pops made: {model}"
+    return None
+
+
+def search_C11(seed):
+    """_add_row_to_this_update on random rows against a dict model: the latest row wins on exactly its (key, plug) entry"""
+    from nrel.hive.state.simulation_state.update.charging_price_update import _add_row_to_this_update
+    rnd = random.Random(seed)
+    acc, model = immutables.Map(), {}
+    for _ in range(8):
+        row = {"time": "0", "charger_id": rnd.choice(["DCFC", "LEVEL_2", "LEVEL_1"]), "price_kwh": rnd.choice(["0.1", "0.25", "1.5", "oops"])}
+        kind = rnd.choice(["station_id", "geoid", None])
+        if kind:
+            row[kind] = rnd.choice(["s0", "s1"]) if kind == "station_id" else rnd.choice(["8a268cdac30ffff", "8a268cdac27ffff"])
+        if rnd.random() < 0.1:
+            del row["charger_id"]
+        acc = _add_row_to_this_update(acc, row)
+        try:
+            price = float(row["price_kwh"])
+            if kind and "charger_id" in row:
+                model.setdefault(row[kind], {})[row["charger_id"]] = price
+        except ValueError:
+            pass
+        if {k: dict(v) for k, v in acc.items()} != model:
+            return f"after row {row}: accumulated prices {dict((k, dict(v)) for k, v in acc.items())}, latest-row-wins gives {model}"
+    return None
+
+
+def search_C14(seed):
+    """random two-way 4x4 street grids around Denver with link speeds from {15, 40, 60, 110} kmph, node coordinates spelled
+    x/y or lat/lon: the inner part of every route takes the minimum total travel time (independent Dijkstra)"""
+    import heapq, networkx as nx
+    from math import asin, cos, radians, sin, sqrt
+    from nrel.hive.model.roadnetwork.osm.osm_roadnetwork import OSMRoadNetwork
+    from nrel.hive.model.entity_position import EntityPosition
+    rnd = random.Random(seed)
+
+    def hav(a, b):
+        la1, lo1, la2, lo2 = map(radians, (a[0], a[1], b[0], b[1]))
+        d = sin((la2 - la1) / 2) ** 2 + cos(la1) * cos(la2) * sin((lo2 - lo1) / 2) ** 2
+        return 2 * 6371000.0 * asin(sqrt(d))
+    n = 4
+    lat_key, lon_key = rnd.choice([("y", "x"), ("lat", "lon")])
+    coords = {i * n + j: (39.74 + 0.004 * i + rnd.random() * 0.001, -105.03 + 0.006 * j + rnd.random() * 0.001) for i in range(n) for j in range(n)}
+    g = nx.MultiDiGraph()
+    for k, (la, lo) in coords.items():
+        g.add_node(k, **{lat_key: la, lon_key: lo})
+    table = {}
+    for i in range(n):
+        for j in range(n):
+            for di, dj in ((0, 1), (1, 0), (1, 1)):
+                a, b = i + di, j + dj
+                if a < n and b < n and (di + dj < 2 or rnd.random() < 0.4):
+                    for u, v in ((i * n + j, a * n + b), (a * n + b, i * n + j)):
+                        sp = rnd.choice([15.0, 40.0, 60.0, 110.0])
+                        length = hav(coords[u], coords[v]) * 1.02 + 2.0
+                        g.add_edge(u, v, length=length, speed_kmph=sp)
+                        table[(u, v)] = length / 1000.0 / sp * 3600.0
+    rn = OSMRoadNetwork(g, 15, 40.0)
+    links = sorted(rn.link_helper.links.values(), key=lambda l: l.link_id)
+    for _ in range(40):
+        src, dst = rnd.sample(links, 2)
+        route = rn.route(EntityPosition(src.link_id, src.start), EntityPosition(dst.link_id, dst.end))
+        if len(route) < 2:
+            continue
+        got = sum(lt.distance_km / lt.speed_kmph * 3600.0 for lt in route[1:-1])
+        u, v = int(src.link_id.split("-")[1]), int(dst.link_id.split("-")[0])
+        dist, heap = {u: 0.0}, [(0.0, u)]
+        while heap:
+            d, x = heapq.heappop(heap)
+            if d > dist.get(x, 1e30):
+                continue
+            for (a, b), t in table.items():
+                if a == x and d + t < dist.get(b, 1e30):
+                    dist[b] = d + t
+                    heapq.heappush(heap, (d + t, b))
+        if got > dist[v] * (1 + 1e-6) + 1e-9:
+            return (f"route {src.link_id} -> {dst.link_id} (node coordinates as {lat_key}/{lon_key}) takes {got:.1f} s between the junctions, "
+                    f"the fastest path takes {dist[v]:.1f} s")
+    return None
+
+
 def main():
     pid, seed = sys.argv[1], int(sys.argv[2])
     n = int(sys.argv[3]) if len(sys.argv) > 3 else 150
-    if pid in ("C06", "C13", "C19"):
+    if pid in ("C06", "C09", "C11", "C13", "C14", "C15", "C19", "C20"):
         fn_, what_ = {"C06": (search_C06, "traverse() over a random multi-link route"), "C13": (search_C13, "route() on an in-memory 4x4 street grid"),
+                      "C14": (search_C14, "route() on a random in-memory street grid with mixed link speeds"),
+                      "C09": (search_C09, "DictOps stack dictionary operations against a list model"),
+                      "C11": (search_C11, "_add_row_to_this_update on random price rows against a dict model"),
+                      "C20": (search_C20, "time_in_range on random times of day and every boundary"),
+                      "C15": (search_C15, "crank / batch runner on a fresh simulation with a stateful instruction generator"),
                       "C19": (search_C19, "construct_station_load_events on a random report tuple")}[pid]
         for k in range(n):
             msg = fn_(seed * 100003 + k)
@@ -368,8 +546,9 @@ def main():
                 print(what_ + ", seed", seed * 100003 + k)
                 print("REPRODUCED", msg)
                 return 1
-        print("not reproduced")
-        return 0
+        if pid not in ORACLES:
+            print("not reproduced")
+            return 0
     if pid not in ORACLES and pid not in ("C04", "C16"):
         print("no native oracle for", pid)
         print("not reproduced")
